@@ -2,6 +2,7 @@
 //! prints one canonical trace per case in the "list of N" wire format of coq/common/Wire.v.
 mod c05;
 mod c15;
+mod c16;
 mod c02;
 mod c03;
 mod c17;
@@ -19,6 +20,7 @@ fn main() {
     match argv[1].as_str() {
         "c05" => c05::main(&args),
         "c15" => c15::main(&args),
+        "c16" => c16::main(&args),
         "c03" => c03::main(&args),
         "c17" => c17::main(&args),
         "c02" => c02::main(&args),
